@@ -38,6 +38,8 @@ TypeOK == A!TypeOK
 CommitSeesCurrent == A!CommitSeesCurrent
 FailedSwapKeepsCell == A!FailedSwapKeepsCell
 Termination == A!Termination
+RefinesCas1 == A!Cas(1)!Spec
+RefinesCas2 == A!Cas(2)!Spec
 \* the version counters grow with every retry; bound them for the exhaustive runs
 VerBound == \A a \in {1, 2} : ver[a] <= 6
 =============================================================================
